@@ -146,13 +146,21 @@ theorem unwrapWrapped_many (P : ProtoCfg) (s : Sig) : ∀ (n : Nat) (l : List Va
   | 0, _, h => by omega
   | 1, _, h => by omega
 
+/-- with both tests in place `_is_empty_wrapper` says exactly "nothing is declared to come back" -/
+theorem isEmptyWrapper_good (F : Facts18) (h1 : F.ewWrapper = true) (h2 : F.ewMembers = true) (s : Sig) :
+    isEmptyWrapper F s = s.noReturn := by
+  unfold isEmptyWrapper Sig.outMembers Sig.outIsWrapper Sig.noReturn Sig.outLen Returns.truthy
+  cases s.style <;> cases s.returns <;> simp [h1, h2]
+  all_goals (first | (rename_i n; cases n <;> simp; done) | (rename_i k; cases k.complexFields <;> simp))
+
 /-! ### the result: `_cb_sync` against serialise → transmit → decode -/
 
 theorem out_agree_ignored (F : Facts18) (hF : F.Good) (P : ProtoCfg) (hP : P.Good) (τ : Val → Val)
     (s : Sig) (x : Val) :
     cbSync F s (wrapOut F s (.ignored x)) = .ok (.ignored x) ∧
     respond P τ s (ignoredOnWire F s (wrapOut F s (.ignored x))) = .ok (emptyReply s) := by
-  obtain ⟨h1, h2, h3, h4, h5, hw, hc, hi⟩ := hF
+  obtain ⟨h1, h2, h3, h4, h5, hw, hc, hi, hew1, hew2⟩ := hF
+  have hew := isEmptyWrapper_good F hew1 hew2 s
   obtain ⟨hb, _, hns⟩ := hP
   by_cases hst : s.style = .wrapped
   · have hbs := bodyStyle_of_wrapped hst
@@ -173,7 +181,7 @@ theorem out_agree_ignored (F : Facts18) (hF : F.Good) (P : ProtoCfg) (hP : P.Goo
           unfold Sig.outLen at hge
           cases hr : s.returns <;> simp [hr] at hge ⊢
           omega
-        simp only [cbSync, hc, hnr, hbs, h1]
+        simp only [cbSync, hc, hew, hnr, hbs, h1]
         have h0 : s.outLen ≠ 0 := by omega
         have h1' : s.outLen ≠ 1 := by omega
         simp [h0, h1']
@@ -196,7 +204,7 @@ theorem wireView_plain (s : Sig) (r : Val) (h : r.isIgnored = false) :
 
 theorem cbSync_seq_plain (F : Facts18) (s : Sig) (r : Val) (rest : List Val) (h : r.isIgnored = false) :
     cbSync F s (.seq (r :: rest)) =
-      (if F.cbOrder = .noReturnFirst && s.noReturn then .ok .none
+      (if F.cbOrder = .noReturnFirst && isEmptyWrapper F s then .ok .none
        else if F.isOutBare s.bodyStyle then first (.seq (r :: rest))
        else if s.bodyStyle = .empty then .ok .none
        else if s.outLen = 0 then .ok .none
@@ -213,7 +221,8 @@ theorem out_agree_plain (F : Facts18) (hF : F.Good) (P : ProtoCfg) (hP : P.Good)
     (cbSync F s (wrapOut F s r)).bind (fun v => wireView s (.ok v)) =
       respond P τ s (ignoredOnWire F s (wrapOut F s r)) := by
   have hiob := isOutBare_iff F hF s
-  obtain ⟨h1, h2, h3, h4, h5, hw, hc, hi⟩ := hF
+  obtain ⟨h1, h2, h3, h4, h5, hw, hc, hi, hew1, hew2⟩ := hF
+  have hew := isEmptyWrapper_good F hew1 hew2 s
   obtain ⟨hb, _, hns⟩ := hP
   rcases hok with hok | ⟨_, hok⟩
   · simp [hr] at hok
@@ -224,7 +233,7 @@ theorem out_agree_plain (F : Facts18) (hF : F.Good) (P : ProtoCfg) (hP : P.Good)
       have hcond : ¬ (s.style = .wrapped ∧ 2 ≤ s.outLen) := by omega
       rw [if_neg hcond] at hok
       rw [hwo, cbSync_seq_plain F s r [] hr, ignoredOnWire_seq_plain F s r [] hr]
-      simp only [respond, hbs, if_true, hc, h1]
+      simp only [respond, hbs, if_true, hc, hew, h1]
       have hn' : s.outLen = 0 ∨ s.outLen = 1 := by omega
       rcases hn' with h0 | h1'
       · have hnr : s.noReturn = true := by
@@ -259,7 +268,7 @@ theorem out_agree_plain (F : Facts18) (hF : F.Good) (P : ProtoCfg) (hP : P.Good)
         rw [cbSync_seq_plain F s v rest hv, ignoredOnWire_seq_plain F s v rest hv]
         have h0 : s.outLen ≠ 0 := by omega
         have h1' : s.outLen ≠ 1 := by omega
-        simp only [respond, hbs, if_true, hc, h1, hnr]
+        simp only [respond, hbs, if_true, hc, hew, h1, hnr]
         rw [takeOut_exact P _ _ hlen]
         have hm : (v :: rest).map (xfer τ) = v :: rest := map_xfer_id τ _ (fun w hw => (hall w hw).2)
         simp only [Res.bind, hm]
@@ -270,7 +279,7 @@ theorem out_agree_plain (F : Facts18) (hF : F.Good) (P : ProtoCfg) (hP : P.Good)
     have hcond : ¬ (s.style = .wrapped ∧ 2 ≤ s.outLen) := fun h => hst h.1
     rw [if_neg hcond] at hok
     rw [hwo, cbSync_seq_plain F s r [] hr, ignoredOnWire_seq_plain F s r [] hr]
-    simp only [respond, hbs, if_false, hb, first, hc, hiob.2 hst]
+    simp only [respond, hbs, if_false, hb, first, hc, hew, hiob.2 hst]
     cases hnr : s.noReturn
     · rw [hnr] at hok
       simp at hok
@@ -528,7 +537,8 @@ theorem ignored_direct_vs_wire (F : Facts18) (hF : F.Good) (P : ProtoCfg) (hP : 
 theorem no_return_is_none (F : Facts18) (hF : F.Good) (s : Sig) (hnr : s.noReturn = true)
     (impl : List Val → Result) (pos : List Val) (kw : List (String × Val)) (v : Val)
     (h : nullCall F s impl pos kw = .ok v) : v = .none ∨ v.isIgnored = true := by
-  obtain ⟨_, _, _, _, _, hw, hc, _⟩ := hF
+  obtain ⟨_, _, _, _, _, hw, hc, _, hew1, hew2⟩ := hF
+  have hew := isEmptyWrapper_good F hew1 hew2 s
   simp only [nullCall] at h
   cases hr : nullRecv F s pos kw with
   | fault c => simp [hr, Res.bind] at h
@@ -559,7 +569,7 @@ theorem no_return_is_none (F : Facts18) (hF : F.Good) (s : Sig) (hnr : s.noRetur
           right; rw [← h]; rfl
       | false =>
         rw [cbSync_seq_plain F s r [] hig] at h
-        simp [hc, hnr] at h
+        simp [hc, hew, hnr] at h
         left; exact h.symm
 
 theorem takeOut_ne_exc (P : ProtoCfg) : ∀ (n : Nat) (vs : List Val) (e : String), takeOut P n vs ≠ .exc e
@@ -622,7 +632,8 @@ theorem cbSync_single (F : Facts18) (hF : F.Good) (s : Sig) (r : Val) (hr : r.is
     (hnr : s.noReturn = false) (h1 : ¬ (s.style = .wrapped ∧ 2 ≤ s.outLen)) :
     cbSync F s (wrapOut F s r) = .ok r := by
   have hiob := isOutBare_iff F hF s
-  obtain ⟨h1', _, _, _, _, hw, hc, _⟩ := hF
+  obtain ⟨h1', _, _, _, _, hw, hc, _, hew1, hew2⟩ := hF
+  have hew := isEmptyWrapper_good F hew1 hew2 s
   by_cases hst : s.style = .wrapped
   · have hbs := bodyStyle_of_wrapped hst
     have hn : s.outLen ≤ 1 := by
@@ -635,11 +646,11 @@ theorem cbSync_single (F : Facts18) (hF : F.Good) (s : Sig) (r : Val) (hr : r.is
       unfold Sig.outLen at hn ⊢
       cases hrr : s.returns <;> simp_all
       omega
-    simp [hc, hnr, hbs, h1', hl, first]
+    simp [hc, hew, hnr, hbs, h1', hl, first]
   · have hbs : s.bodyStyle ≠ .wrapped := fun h => hst ((bodyStyle_wrapped_iff s).1 h)
     have hwo : wrapOut F s r = .seq [r] := by simp [wrapOut, hbs]
     rw [hwo, cbSync_seq_plain F s r [] hr]
-    simp [hc, hnr, hiob.2 hst, first]
+    simp [hc, hew, hnr, hiob.2 hst, first]
 
 /-- a generator result: the direct caller gets the generator, the wire client the sequence of
     its items -/
@@ -702,5 +713,37 @@ theorem emptyObject_breaks (P : ProtoCfg) (hP : P.noneSingle = .emptyObject) (s 
     (fs : List String) (hr : s.returns = .one (.complex cls fs)) (rest : List Val) :
     unwrapWrapped P s 1 (Val.none :: rest) = .obj cls (fs.map fun f => (f, Val.none)) := by
   simp [unwrapWrapped, singleAs, hP, hr]
+
+/-- a declared return type is handed over as it is, also when it is a class without members -/
+theorem cbSync_declared_one (F : Facts18) (hF : F.Good) (s : Sig) (k : RetKind) (hk : s.returns = .one k)
+    (r : Val) (hr : r.isIgnored = false) : cbSync F s (wrapOut F s r) = .ok r := by
+  apply cbSync_single F hF s r hr
+  · unfold Sig.noReturn Returns.truthy
+    cases s.style <;> simp [hk]
+  · intro h
+    have : s.outLen = 1 := by simp [Sig.outLen, hk]
+    omega
+
+/-- without the `_wrapper` test a member-less class of the user counts as "nothing declared": the
+    direct caller gets `None` where an instance was returned -/
+theorem membersOnly_breaks (F : Facts18) (hc : F.cbOrder = .noReturnFirst) (hw : F.ewWrapper = false)
+    (s : Sig) (k : RetKind) (hst : s.style ≠ .wrapped) (hk : s.returns = .one k)
+    (h0 : k.complexFields = some 0) (r : Val) (hr : r.isIgnored = false) :
+    cbSync F s (.seq [r]) = .ok .none := by
+  rw [cbSync_seq_plain F s r [] hr]
+  have : isEmptyWrapper F s = true := by
+    unfold isEmptyWrapper Sig.outMembers
+    cases hs : s.style <;> simp_all
+  simp [hc, this]
+
+/-- without the member count every synthesised wrapper counts as empty: a wrapped method with one
+    return value hands `None` to the direct caller -/
+theorem wrapperOnly_breaks (F : Facts18) (hc : F.cbOrder = .noReturnFirst) (hm : F.ewMembers = false)
+    (s : Sig) (hst : s.style = .wrapped) (r : Val) (hr : r.isIgnored = false) :
+    cbSync F s (.seq [r]) = .ok .none := by
+  rw [cbSync_seq_plain F s r [] hr]
+  have : isEmptyWrapper F s = true := by
+    simp [isEmptyWrapper, Sig.outMembers, Sig.outIsWrapper, hst, hm]
+  simp [hc, this]
 
 end SpyneModel.Null
